@@ -27,6 +27,12 @@ func (a AnonymousFlattenMangler) Mangle(sf reflect.StructField) ([]reflect.Struc
 	// anonymous/embedded fields can only be interfaces, pointers and structs
 	switch sf.Type.Kind() {
 	case reflect.Pointer:
+		if sf.Type.Elem().Kind() != reflect.Struct {
+			// a pointer to something other than a struct (e.g. an
+			// embedded named scalar after pointerification):
+			// nothing to promote, leave it alone.
+			return []reflect.StructField{sf}, nil
+		}
 		// recurse with the pointer stripped off
 		sfInner := sf
 		sfInner.Type = sf.Type.Elem()
@@ -93,6 +99,10 @@ func (a AnonymousFlattenMangler) Unmangle(sf reflect.StructField, fvs []FieldVal
 	}
 	switch sf.Type.Kind() {
 	case reflect.Pointer:
+		if sf.Type.Elem().Kind() != reflect.Struct {
+			// left alone by Mangle, just forward up the chain
+			return fvs[0].Value, nil
+		}
 		// It's a pointer. check for nil; strip off the pointer and recurse
 		msf := sf
 		msf.Type = sf.Type.Elem()
